@@ -47,6 +47,10 @@ class Prop:
     def cases(self, rng: random.Random, tier: str):
         raise NotImplementedError
 
+    def extra_coverage(self) -> dict:
+        """property-specific measured numbers added to coverage.extra of the evidence"""
+        return {}
+
     def mutants(self, case, rng: random.Random):
         """Random small variations of a case on which model and implementation disagree (failing-input search); may be infinite."""
         return iter(())
@@ -516,7 +520,7 @@ def run_check(prop: Prop, tier: str, seed: int, replay: str | None = None) -> in
             "known_finding_hits_in_stream": known_hits,
             "corpus_cases": len(corpus), "cases_retried_after_timeout": n_retried, "input_distribution": dict(sorted(dist.items())),
             "build_seconds": round(bsec, 1), "exhaustive": bool(getattr(prop, "exhaustive_" + tier, False)),
-            "obligation_notes": obligations.get("notes", ""),
+            "obligation_notes": obligations.get("notes", ""), "extra": prop.extra_coverage(),
         },
         "assumptions": list(prop.assumptions),
         "wall_s": round(wall, 2), "violations": len(violations),
